@@ -6,7 +6,8 @@ c01_worker — one subprocess of the C01 end-to-end differential.
 `job.json` = {"case": <case>, "variant": <variant>, "root": <scratch dir>}; the result is printed as ONE JSON
 line on stdout (last line).  Everything the real engine writes goes under `root`.
 
-case     {"spec": <turnrig world spec>, "turns": [{"agent","text","now_ms","now"(str|None)}, ..]}
+case     {"spec": <turnrig world spec>, "sde": "0" | None (SOURCE_DATE_EPOCH set / unset),
+          "turns": [{"agent","text","now_ms","now", "now_shape": str|none|absent, "now_ms_shape": int|float|callable|none}, ..]}
 variant  {"clock": {"kind": "real"|"const"|"creep"|"jump"|"back"|"chaos", "t0": float, "step": float, "seed": int},
           "warm": 0|1|2   (number of warm-up executions of the same turn list, each on FRESH state objects and a
                            fresh scratch sub-directory, in the same interpreter BEFORE the measured execution)}
@@ -126,17 +127,33 @@ def execute(case: dict, root: Path) -> dict:
     orch_core = importlib.import_module("clematis.engine.orchestrator.core")
     lines = []
     with TR._env(w):
+        # the rig forces SOURCE_DATE_EPOCH=0; a case may ask for it to be UNSET (restored by _env on exit)
+        if case.get("sde", "0") is None:
+            os.environ.pop("SOURCE_DATE_EPOCH", None)
+        else:
+            os.environ["SOURCE_DATE_EPOCH"] = str(case.get("sde", "0"))
         for i, t in enumerate(case["turns"]):
             w.agent = str(t.get("agent", "a1"))
-            w.spec["now"] = t.get("now")
-            w.spec["now_ms"] = t.get("now_ms", 0)
+            # ctx clock SHAPES (a generated dimension): now str | None | absent; now_ms int | float | callable | None
+            now_shape, ms_shape = t.get("now_shape", "str"), t.get("now_ms_shape", "int")
+            w.spec["now"] = t.get("now") if now_shape == "str" else None
+            ms = t.get("now_ms", 0)
+            w.spec["now_ms"] = {"int": ms, "float": float(ms) + 0.5, "none": None}.get(ms_shape, ms)
             ctx = TR.make_ctx(w, t.get("turn_id", i + 1))
+            if ms_shape == "callable":
+                ctx.now_ms = (lambda _v=ms: _v)
+            if now_shape == "absent":
+                try:
+                    delattr(ctx, "now")
+                except AttributeError:
+                    pass
             try:
                 res = orch_core.Orchestrator().run_turn(ctx, w.state, str(t.get("text", "")))
                 lines.append(getattr(res, "line", None))
             except Exception as e:   # the differential compares the exception type as well
                 lines.append({"raised": type(e).__name__})
-    return {"lines": lines, "logs": _hexfiles(w.log_dir, root, "*.jsonl"), "snaps": _hexfiles(w.snap_dir, root, "*")}
+    return {"lines": lines, "logs": _hexfiles(w.log_dir, root, "*.jsonl"), "snaps": _hexfiles(w.snap_dir, root, "*"),
+            "sde_unset": case.get("sde", "0") is None}
 
 
 def validate_msgs(configs) -> list:
